@@ -2,7 +2,6 @@
 
 import cvxpy
 import numpy as np
-import scipy
 
 from toqito.matrix_props import is_density
 
@@ -82,6 +81,9 @@ def fidelity(rho: np.ndarray, sigma: np.ndarray) -> float:
         raise ValueError("Fidelity is only defined for density operators.")
 
     # If `rho` or `sigma` are *not* cvxpy variables, compute fidelity normally, since this is much faster.
-    sq_rho = scipy.linalg.sqrtm(rho)
-    sq_fid = scipy.linalg.sqrtm(sq_rho @ sigma @ sq_rho)
-    return np.real(np.trace(sq_fid))
+    # Both square roots are of positive semidefinite matrices: take them through the Hermitian eigendecomposition
+    # (`scipy.linalg.sqrtm` is inexact, and can fail outright, on singular input).
+    evals, evecs = np.linalg.eigh(rho)
+    sq_rho = (evecs * np.sqrt(np.clip(evals, 0, None))) @ evecs.conj().T
+    evals_fid = np.linalg.eigvalsh(sq_rho @ sigma @ sq_rho)
+    return np.sum(np.sqrt(np.clip(evals_fid, 0, None)))
